@@ -153,6 +153,14 @@ CHECKS = {
         "A 0-row focus item has no row to show: the focus-visible clause is skipped for it (all others apply). wrap_around walkers are not used. All raise clauses are merged by exception site.",
         "DESIGN.md §3 C07, §8",
     ),
+    "C20": (
+        "exploration",
+        "invariant monitor over histories with spy content: every row of the wrapped content starts with a glyph unique to that row and ends with an edge marker, so after every operation the rendered frame is matched against 'no bar, content at width w' or 'bar column trough/thumb/trough, content at width w - bar' and each clause of the statement asserted",
+        "Scrollable, ScrollBar(Scrollable) and ScrollBar(ListBox) over Text, row spies (flow / wrapping / fixed), Piles of spies / Text / Edit, list boxes; views (2..20)x(1..10), both sides, bar width 1-3, custom thumb/trough characters; histories of scroll keys, wheel events, set_scrollpos(any int incl. negative and 2**63), "
+        "resizes and content changes; clauses: slice, reported position, bar presence, parts sum to the view height, thumb top == 0 iff p == 0, thumb monotone in p (per content/size across the history), handed width, handled events do not scroll, no exception. The last frame is kept alive so cache hits are judged.",
+        "'More rows than the view' is judged at the width actually handed to the content (a Text can be taller only at full width: a bar beside fitting content is accepted there). The handled-event clause is skipped when the content shows a cursor. Exceptions from inside listbox.py at a valid size are out of scope (C07).",
+        "DESIGN.md §3 C20, §8",
+    ),
 }
 
 NA_REASON = "check not built yet in this round (see DESIGN.md §6 build order); no claim is made"
